@@ -247,7 +247,7 @@ class Ctx:
         if not force:
             if self.res["witnesses"] >= self.max_witnesses:
                 return
-            if (self.path_no + self.seed) % self.witness_stride != 0:
+            if self.path_no != 1 and (self.path_no + self.seed) % self.witness_stride != 0:
                 return
         try:
             m = self._solve_realisable()
@@ -390,11 +390,11 @@ def generic_in_process(desc):
     return "ok", "match"
 
 
-def files_desc(model, apps, seed, names=("img",), size=1 << 70, labels=None):
+def files_desc(model, apps, seed, names=("img",), size=1 << 70, labels=None, sizes=None):
     pat = replay.patches_from_apps(model, apps)
     out = {}
     for i, n in enumerate(names):
-        out[n] = dict(size=size, seed=(seed & 0xFFFF) + 101 * i,
+        out[n] = dict(size=sizes[n](model) if sizes and n in sizes else size, seed=(seed & 0xFFFF) + 101 * i,
                       patches=[[a, b.hex()] for a, b in sorted(pat.get(n, {}).items())])
         if labels and n in labels:
             out[n]["name"] = labels[n]
@@ -402,13 +402,13 @@ def files_desc(model, apps, seed, names=("img",), size=1 << 70, labels=None):
 
 
 def read_scenario(ctx, E, vars_, *, entry, params, call, total, g0, spec_at, unit, rng, names=("img",), opaque=(),
-                  prefer=(), j=None, extra_units=(), post_files=None):
+                  prefer=(), j=None, extra_units=(), post_files=None, sizes=None):
     """Scenario for a read request.
     params/call/total/g0: callables(model) -> JSON value / int; spec_at(model, g:int, env) -> z3 BV8 term with concrete g."""
     seed = ctx.seed
 
     def build(model):
-        fd = files_desc(model, E.apps, seed, names)
+        fd = files_desc(model, E.apps, seed, names, sizes=sizes)
         if post_files:
             post_files(model, fd)
         d = dict(entry=entry, params=params(model), files=fd, call=call(model))
